@@ -10,6 +10,7 @@ import (
 	"math/rand"
 	"os"
 	"sort"
+	"strings"
 	"sync"
 
 	"github.com/nsqio/nsq/verifharness/hlib"
@@ -179,11 +180,15 @@ func viewTrace(args []string) int {
 					if o.Crash != "" {
 						mu.Lock()
 						crashes++
-						key := "crash:" + o.Crash
+						key := "crash:" + strings.SplitN(o.Crash, " -- ", 2)[0]
 						if f := findings[key]; f != nil {
 							f.Count++
 						} else {
-							findings[key] = &ViewFinding{Kind: "crash", Key: key, View: kind, Path: path, Case: raw, Obs: o, Count: 1,
+							fk := "crash"
+							if strings.HasPrefix(o.Crash, "exit-without-panic") {
+								fk = "child-exit"
+							}
+							findings[key] = &ViewFinding{Kind: fk, Key: key, View: kind, Path: path, Case: raw, Obs: o, Count: 1,
 								What: "nsqadmin crashed while serving " + kind + ": " + o.Crash}
 						}
 						mu.Unlock()
